@@ -9,10 +9,10 @@ LEVEL = "exploration"
 RULE = (
     "sequences of 0-8 rows mixing accepted rows, rows with a rejected cell, rows with a wrong item count and duplicates "
     "(cells from the C02 pools, classified by M-field; Text cells of delimited data also with line breaks inside) written one by one (write_row, or write_rows with one row) through cutplace.Writer bound to delimited and "
-    "fixed CIDs (a sixth of them named by the path of a CID file) with header 0-1, optional IsUnique and DistinctCount checks and every fixed line-delimiter setting. After "
+    "fixed CIDs (a sixth of them named by the path of a CID file) with header 0-1, optional IsUnique and DistinctCount checks (in both declaration orders) and every fixed line-delimiter setting. After "
     "every write_row the stream is inspected: it must have grown by exactly the encoding of the row iff M-writer accepts "
     "the row; close() must fail iff the distinct-count model fails; the same rows handed in bulk to write_rows() of a second writer (continued after every rejection) must produce the same output and end verdict; the output is read back with cutplace.rows under a "
-    "fresh CID and must be accepted completely and equal the written values (modulo fixed padding). A case is (CID, row "
+    "fresh CID and must be accepted completely (its end-of-data verdict being the one of the whole-file checks over the written rows) and equal the written values (modulo fixed padding). A case is (CID, row "
     "sequence), distinct by digest, non-trivial with at least one accepted and one rejected row."
 )
 ASSUMPTIONS = ["delimited output is compared with Python's csv.writer for the CID's (default) dialect; under 'any' (also the default) any of the three delimiters is accepted"]
@@ -36,7 +36,12 @@ def gen_case(rng, kind):
             model.fmt = dict(model.fmt, allowed=R.parse_int_range(model.allowed_text))
     if rng.random() < 0.4:
         f = rng.choice(model.fields)["name"]
-        model.checks.append({"desc": "dist", "type": "DistinctCount", "field": f, "op": rng.choice(OPS), "n": rng.randint(0, 4)})
+        dist = {"desc": "dist", "type": "DistinctCount", "field": f, "op": rng.choice(OPS), "n": rng.randint(0, 4)}
+        # declared after or before the IsUnique check (the order in which a row reaches them)
+        if rng.random() < 0.5:
+            model.checks.append(dist)
+        else:
+            model.checks.insert(0, dist)
     widths = model.widths() if kind == "fixed" else None
     rows = [r for r in table if True]
     # rebuild: header rows first (well-formed strings), then data rows from the generated table
@@ -113,6 +118,7 @@ def check_case(ctx, model, rows, cid_by_path=False, one_by_one_through_write_row
     target = io.StringIO(newline="")
     verdicts = []
     written = []
+    written_as_judged = []  # the data rows that were written, as the row model saw them (header rows: None)
     try:
         if cid_by_path:
             # the writer is bound to the CID by the path of the CID, like readers can be
@@ -190,6 +196,7 @@ def check_case(ctx, model, rows, cid_by_path=False, one_by_one_through_write_row
                               expected=acceptable, observed=grown if grown is not None else after)
                 return
             written.append(row)
+            written_as_judged.append(list(as_written) if n_written >= model.header else None)
             n_written += 1
         else:
             if outcome == "written":
@@ -279,8 +286,20 @@ def check_case(ctx, model, rows, cid_by_path=False, one_by_one_through_write_row
     if [list(r) for r in back] != want:
         ctx.violation("C14:readback-differs", case, "rows read back differ from the rows written", expected=want, observed=back)
         return
-    if (back_error is not None) != (end_expected is not None):
-        ctx.violation("C14:readback-end-check", case, "end-of-data verdict of the read-back differs from the writer's", expected=end_expected, observed=back_error)
+    # "its output validates again": the end-of-data verdict over the rows that were written
+    again = RM.expected_run(model, [["header"]] * model.header + [r for r in written_as_judged if r is not None])
+    if again is None:
+        ctx.unjudged("written rows the row model does not judge")
+        return
+    if (back_error is not None) != (again["end"] is not None):
+        ctx.violation("C14:readback-end-check", case, "end-of-data verdict of the read-back differs from the whole-file checks over the written rows", expected=again["end"], observed=back_error)
+    elif (end_expected is not None) != (again["end"] is not None):
+        # the writer's own verdict at close() was the model's (judged above), the read-back's is the model's over the
+        # written rows, and the two differ: a DistinctCount check declared before the check that rejected a row has
+        # counted that row although it was never written
+        ctx.violation("C14:end-verdict-counts-rows-a-later-check-rejected", case,
+                      "close() of the writer and validating its output again disagree: a check declared earlier has counted a row that a later-declared check rejected (and that was not written)",
+                      expected={"validating the output": again["end"]}, observed={"writer.close()": core_json(end_error)})
 
 
 def core_json(obj):
